@@ -197,10 +197,12 @@ pub fn structured_tail(rng: &mut Rng, w: u16, n: usize, st: &RxState) -> Vec<u8>
     let kind = Kind::from_word(w);
     let lt = wire::lt_of_word(w);
     let pick_id = |rng: &mut Rng| -> u8 {
-        match rng.below(4) {
+        match rng.below(5) {
             0 if !st.open_ids.is_empty() => st.open_ids[rng.below(st.open_ids.len())],
             1 if !st.open_ids.is_empty() && st.slots > 0 => st.open_ids[0].wrapping_add(st.slots as u8),
             2 => 0,
+            // the ends of the id range (slot tables sized by the id type)
+            3 => [255u8, 254, 1, 128][rng.below(4)],
             _ => rng.byte(),
         }
     };
